@@ -175,6 +175,7 @@ class Explorer:
         self.fresh = itertools.count()
         self.symbols = {}
         self.choices = []
+        self.path_memo = {}
 
     @staticmethod
     def _advance(entry):
@@ -202,6 +203,7 @@ class Explorer:
         self.cfailed = []
         self.real_as = real_as
         self.fresh = itertools.count()
+        self.path_memo = {}
         try:
             fn(self)
         except Abort:
